@@ -687,9 +687,14 @@ def repeat_iter(ctx):
         cs = _calls(p)
         if greedy:
             _rec(d, "greedy-iterator", inner.startswith("GreedyRepeatIterator::new(a2, a1.operation, "), "greedy repeat must be driven by GreedyRepeatIterator(matcher, child, ...); found %s" % r[:80], loc)
-            _rec(d, "greedy-bound", inner.endswith("Ord::min(a1.max, satsub(add(1, len(a2.search)), a3)), a1.min)"), "the iterator stack must be bounded by min(max, remaining input + 1) and carry min; found %s" % r[-120:], loc)
+            mb = re.search(r", (Ord::m(?:ax|in)\(.*\)|[^,()]+), a1\.min\)$", inner)
+            bnd = mb.group(1) if mb else "?"
+            REM = "satsub(add(1, len(a2.search)), a3)"
+            capped = "Ord::min(a1.max, %s)" % REM
+            _rec(d, "greedy-bound-finite", bnd in (capped, "Ord::max(%s, a1.min)" % capped, "Ord::max(a1.min, %s)" % capped), "the iterator stack must be bounded by max(min, min(max, remaining input + 1)): anything larger lets iterations that match nothing pile up without end; found %s" % bnd[:120], loc)
+            _rec(d, "greedy-bound-at-least-min", bnd in ("Ord::max(%s, a1.min)" % capped, "Ord::max(a1.min, %s)" % capped), "the bound on the number of iterations can be smaller than min (%s): a body that matches nothing at some position can then not be repeated min times, e.g. '(?:a|^){2}' on '' (and the empty-string guard of replace_all/tokenize, which asks the matcher, lets the pattern through)" % bnd[:100], loc)
             rng = [g for g in gs if g.startswith("variant(next(Range::Range{")]
-            _rec(d, "priming-bounded", all(g.startswith("variant(next(Range::Range{start: 0, end: Ord::min(a1.max, satsub(add(1, len(a2.search)), a3))}))") for g in rng), "the priming loop must run at most min(max, remaining input + 1) times", loc)
+            _rec(d, "priming-bounded", all(g.startswith("variant(next(Range::Range{start: 0, end: %s}))" % bnd) for g in rng), "the priming loop must run at most `bound` times", loc)
         elif "!a1.greedy" in gs:
             _rec(d, "reluctant-iterator", inner == "ReluctantRepeatIterator::new(a2, a1.operation, a3, a1.min, a1.max)", "reluctant repeat must be driven by ReluctantRepeatIterator(matcher, child, position, min, max); found %s" % r[:120], loc)
         z = [g for g in gs if "is_duplicate_zero_length_match" in g]
@@ -715,6 +720,10 @@ def repeat_iter(ctx):
                 _rec(d, "greedy|none-when-empty", any(g == "eq(0, len(a1.iterators))" for g in gs), "GreedyRepeatIterator reports exhaustion while iterators remain (guards %s)" % gs[-2:], loc)
             else:
                 _rec(d, "greedy|yield-top-position", r in ("Option::copied(last(a1.positions))", "last(a1.positions)"), "the greedy repeat must yield the top of its position stack; found %s" % r[:80], loc)
+        # a further iteration is started only while the stack is below its bound, from the position just reached
+        for bb, t_, rr in call_sites(gb, lambda r: r.endswith("::matches_iter")):
+            g = [strip_ver(x) for x in guard_strings(gb, bb, ctx.senv(gb))]
+            _rec(d, "greedy|extension-bounded", "lt(len(a1.iterators), a1.bound)" in g, "GreedyRepeatIterator::next starts a further iteration without testing the stack against its bound (guards %s)" % g[-3:], gb.loc(bb))
         # pops only after the top iterator is exhausted
         for bb, t, rr in call_sites(gb, lambda r: r.endswith("::pop")):
             g = guard_strings(gb, bb, ctx.senv(gb))
